@@ -15,6 +15,7 @@ package cmap
 
 import (
 	"sync"
+	"sync/atomic"
 
 	"github.com/dapr/kit/verifhook"
 )
@@ -31,8 +32,8 @@ import (
 // - Delete(key T): Removes the mutex associated with the given key from the map.
 // - Clear(): Removes all mutexes from the map.
 // - ItemCount() int: Returns the number of items (mutexes) in the map.
-// - DeleteUnlock(key T): Removes the mutex associated with the given key from the map and releases the lock.
-// - DeleteRUnlock(key T): Removes the mutex associated with the given key from the map and releases the read lock.
+// - DeleteUnlock(key T): Releases the lock and removes the mutex associated with the given key from the map, unless another goroutine still holds or waits for it.
+// - DeleteRUnlock(key T): Releases the read lock and removes the mutex associated with the given key from the map, unless another goroutine still holds or waits for it.
 type Mutex[T comparable] interface {
 	Lock(key T)
 	Unlock(key T)
@@ -45,34 +46,51 @@ type Mutex[T comparable] interface {
 	DeleteRUnlock(key T)
 }
 
+// mutexItem is a per-key mutex together with the number of goroutines that hold it or wait for
+// it. refs is only incremented while the map lock is held (read or write), and DeleteUnlock and
+// DeleteRUnlock inspect it while holding the map lock exclusively, so an entry which another
+// goroutine is about to lock, or has locked, is never removed from under it.
+type mutexItem struct {
+	sync.RWMutex
+	refs atomic.Int64
+}
+
 type mutex[T comparable] struct {
 	lock  sync.RWMutex
-	items map[T]*sync.RWMutex
+	items map[T]*mutexItem
 }
 
 func NewMutex[T comparable]() Mutex[T] {
 	return &mutex[T]{
-		items: make(map[T]*sync.RWMutex),
+		items: make(map[T]*mutexItem),
 	}
 }
 
-func (a *mutex[T]) Lock(key T) {
+// acquire returns the item of key, creating it if needed, with one more reference.
+func (a *mutex[T]) acquire(key T) *mutexItem {
 	a.lock.RLock()
 	mutex, ok := a.items[key]
+	if ok {
+		mutex.refs.Add(1)
+	}
 	a.lock.RUnlock()
 	if ok {
-		verifhook.Point("cmap.mutex.afterLookup", key, "Lock")
-		mutex.Lock()
-		return
+		return mutex
 	}
 
 	a.lock.Lock()
 	mutex, ok = a.items[key]
 	if !ok {
-		mutex = &sync.RWMutex{}
+		mutex = &mutexItem{}
 		a.items[key] = mutex
 	}
+	mutex.refs.Add(1)
 	a.lock.Unlock()
+	return mutex
+}
+
+func (a *mutex[T]) Lock(key T) {
+	mutex := a.acquire(key)
 	verifhook.Point("cmap.mutex.afterLookup", key, "Lock")
 	mutex.Lock()
 }
@@ -83,28 +101,13 @@ func (a *mutex[T]) Unlock(key T) {
 	if ok {
 		verifhook.Point("cmap.mutex.afterLookup", key, "Unlock")
 		mutex.Unlock()
+		mutex.refs.Add(-1)
 	}
 	a.lock.RUnlock()
 }
 
 func (a *mutex[T]) RLock(key T) {
-	a.lock.RLock()
-	mutex, ok := a.items[key]
-	a.lock.RUnlock()
-
-	if ok {
-		verifhook.Point("cmap.mutex.afterLookup", key, "RLock")
-		mutex.RLock()
-		return
-	}
-
-	a.lock.Lock()
-	mutex, ok = a.items[key]
-	if !ok {
-		mutex = &sync.RWMutex{}
-		a.items[key] = mutex
-	}
-	a.lock.Unlock()
+	mutex := a.acquire(key)
 	verifhook.Point("cmap.mutex.afterLookup", key, "RLock")
 	mutex.RLock()
 }
@@ -115,6 +118,7 @@ func (a *mutex[T]) RUnlock(key T) {
 	if ok {
 		verifhook.Point("cmap.mutex.afterLookup", key, "RUnlock")
 		mutex.RUnlock()
+		mutex.refs.Add(-1)
 	}
 	a.lock.RUnlock()
 }
@@ -131,8 +135,10 @@ func (a *mutex[T]) DeleteUnlock(key T) {
 	if ok {
 		verifhook.Point("cmap.mutex.afterLookup", key, "DeleteUnlock")
 		mutex.Unlock()
+		if mutex.refs.Add(-1) <= 0 {
+			delete(a.items, key)
+		}
 	}
-	delete(a.items, key)
 	a.lock.Unlock()
 }
 
@@ -142,8 +148,10 @@ func (a *mutex[T]) DeleteRUnlock(key T) {
 	if ok {
 		verifhook.Point("cmap.mutex.afterLookup", key, "DeleteRUnlock")
 		mutex.RUnlock()
+		if mutex.refs.Add(-1) <= 0 {
+			delete(a.items, key)
+		}
 	}
-	delete(a.items, key)
 	a.lock.Unlock()
 }
 
